@@ -249,4 +249,15 @@ theorem c13_ready (cfg : Cfg) (env : Env) (g : Glue) (r : Req)
   rw [this]
   cases env.ready <;> simp
 
+/-- Known finding C13-refresh-save-failure-served, as a witness on the model (which follows the
+    code): the refresh succeeded, the store write failed (`saveOK = false`), and the request is
+    still forwarded as authenticated — no cookie is issued (c13_no_cookie_without_persist), but the
+    request is not treated as unauthenticated. -/
+example :
+    let s0 : Session := { email := "a@b.c".toList, user := "u".toList, refreshToken := "rt".toList, createdAt := some 1 }
+    let env : Env := { exEnv with load1 := .ok s0, load2 := .ok s0, refresh := fun s => .refreshed { s with accessToken := "new".toList },
+                                  saveOK := false, now := 10000000000000 }
+    let resp := serve { refreshPeriod := 1000000000 } env exGlue { method := "GET".toList, path := "/x".toList }
+    resp.kind = .upstream ∧ (resp.forwarded.bind id).map (·.accessToken) = some "new".toList ∧ resp.cookies = [] := by decide
+
 end O2P
